@@ -94,6 +94,11 @@ structure WSt where
   c09Pong : Bool := false             -- we answered the probe PING that followed the injection
   -- C08: consecutive polls of the connection task that woke itself without doing anything
   idleSelfWakes : Nat := 0
+  -- C15, graceful shutdown: GOAWAY frames we sent; the peer has acknowledged the PING that follows the first,
+  -- all-covering GOAWAY(2^31-1)
+  txGoawayCount : Nat := 0
+  gracefulNoticeSent : Bool := false
+  shutdownPingAcked : Bool := false
   deriving Repr
 
 def WSt.get (w : WSt) (id : Nat) : Option Str := w.strs.find? (·.id = id)
@@ -255,7 +260,8 @@ def tx (w : WSt) (f : Fr) : WSt × List Viol :=
       let viols : List Viol := match w.txGoaway with
         | some prev => if last > prev then ["C15 GOAWAY-last-stream-id-increased"] else []
         | none => []
-      ({ w with txGoaway := some last, txGoawayErr := w.txGoawayErr || code ≠ 0 }, viols)
+      ({ w with txGoaway := some last, txGoawayErr := w.txGoawayErr || code ≠ 0, txGoawayCount := w.txGoawayCount + 1,
+                gracefulNoticeSent := w.gracefulNoticeSent || (last = 2147483647 && code = 0 && w.txGoawayCount = 0) }, viols)
     | .priority _ => (w, [])
     | _ => (w, [])
   (w, blockViol ++ v)
@@ -309,7 +315,12 @@ def rx (w : WSt) (f : Fr) : WSt × List Viol :=
         ({ w with txSettingsQ := rest, ourIwsAcked := newIws,
                   strs := w.strs.map fun x => { x with recvAdvert := x.recvAdvert + d } }, [])
     else ({ w with rxSettingsQ := w.rxSettingsQ ++ [vals] }, [])
-  | .ping ack payload => if ack then (w, []) else ({ w with rxPings := w.rxPings ++ [payload] }, [])
+  | .ping ack payload =>
+    if ack then
+      -- the acknowledgement of the shutdown PING (h2's fixed payload) after the graceful notice
+      (if w.gracefulNoticeSent && payload = [0x0b, 0x7b, 0xa2, 0xf0, 0x8b, 0x9b, 0xfe, 0x54]
+        then { w with shutdownPingAcked := true } else w, [])
+    else ({ w with rxPings := w.rxPings ++ [payload] }, [])
   | .goaway last _ _ => ({ w with rxGoaway := some last }, [])
   | _ => (w, [])
 
@@ -344,6 +355,8 @@ def apiTarget (w : WSt) (n : Nat) : WSt := { w with connRecvMax := max w.connRec
 /-- end-of-history checks, to be evaluated once the connection is quiescent with an open transport
     (every owed reply must have been written): C14 "exactly one acknowledgement" -/
 def quiescent (w : WSt) : List Viol :=
+  -- graceful shutdown: once the peer has acknowledged the shutdown PING the final GOAWAY follows
+  (if w.shutdownPingAcked ∧ w.txGoawayCount < 2 ∧ ¬ w.txGoawayErr then ["C15 graceful-shutdown-never-sends-its-final-GOAWAY"] else []) ++
   -- (an endpoint that has sent GOAWAY and closed the connection no longer answers)
   (if ¬ w.rxSettingsQ.isEmpty ∧ w.txGoaway.isNone then ["C14 SETTINGS-never-acknowledged"] else []) ++
   (if ¬ w.rxPings.isEmpty ∧ w.txGoaway.isNone then ["C14 PING-never-answered"] else []) ++
